@@ -54,6 +54,19 @@ Qed.
 Lemma ux_thresh_adv_table : all_sat ux_ke (adv_assets ux_A ux_Pre (rev ux_thresh_w)) ux_thresh = [rev ux_thresh_w].
 Proof. vm_compute. reflexivity. Qed.
 
+Lemma ux_thresh_nonvacuous :
+  linked ux_ke ux_A ux_se ux_f /\ locks_compatible ux_se /\ (forall ks, Permutation (ksort ux_ke ks) ks) /\
+  sigs_distinct ux_ke ux_A /\ pre_consistent ux_A ux_Pre /\
+  uwf ux_thresh /\ NoDup (ukeys ux_thresh) /\
+  (exists t, type_of ux_thresh = ROk t /\ m_nm (t_mall t) = true /\ m_signed (t_mall t) = true /\ c_base (t_corr t) = BB) /\
+  satisfy ux_ke ux_se ux_f false true ux_thresh = Some ux_thresh_w /\
+  all_sat ux_ke (adv_assets ux_A ux_Pre (rev ux_thresh_w)) ux_thresh = [rev ux_thresh_w].
+Proof.
+  destruct ux_thresh_hyps as [H1 [H2 H3]].
+  split; [apply ux_linked|]. split; [apply ux_locks|]. split; [apply ux_ksort|]. split; [apply ux_distinct|]. split; [apply ux_pre|].
+  split; [exact H1|]. split; [exact H2|]. split; [exact H3|]. split; [apply ux_thresh_satisfy | apply ux_thresh_adv_table].
+Qed.
+
 (* ---- 2. a choice: and_v(v:pk(2), or_i(pk(0), and_v(v:sha256(H),and_v(v:sha256(H),sha256(H))))) with both
         signatures and the preimage ---- *)
 Definition ux_choice : ms :=
@@ -80,6 +93,18 @@ Proof.
 Qed.
 Lemma ux_choice_adv_table : all_sat ux_ke (adv_assets ux_A ux_Pre (rev ux_choice_w)) ux_choice = [rev ux_choice_w].
 Proof. vm_compute. reflexivity. Qed.
+
+Lemma ux_choice_nonvacuous :
+  uwf ux_choice /\ NoDup (ukeys ux_choice) /\
+  (exists t, type_of ux_choice = ROk t /\ m_nm (t_mall t) = true /\ m_signed (t_mall t) = true /\ c_base (t_corr t) = BB) /\
+  length (all_sat ux_ke ux_A ux_choice) = 2%nat /\
+  satisfy ux_ke ux_se ux_f false true ux_choice = Some ux_choice_w /\
+  all_sat ux_ke (adv_assets ux_A ux_Pre (rev ux_choice_w)) ux_choice = [rev ux_choice_w].
+Proof.
+  destruct ux_choice_hyps as [H1 [H2 H3]].
+  split; [exact H1|]. split; [exact H2|]. split; [exact H3|]. split; [rewrite ux_choice_honest_table; reflexivity|].
+  split; [apply ux_choice_satisfy | apply ux_choice_adv_table].
+Qed.
 
 (* The theorem is about NON-malleable mode: the malleable satisfier returns the smaller witness
    [sig0 01 sig2]; a third party that sees it (and knows the preimage) has a second table entry. *)
